@@ -275,6 +275,9 @@ def run(idx, rep, tier):
     rep.floor("projection", 1)
     rep.floor("first-column", 1)
     rep.floor("ritz-pairs", 1)
+    # ---- tolerance / iteration cap reach the factorisation from every entry point (wrappers and the algorithm object)
+    from sa.autorule import passthrough_in
+    passthrough_in(idx, rep, ("decompositions.lanczos", ), ("Lanczos", ), ("tol", "max_iters"), 8)
     rep.explanation = ("LOOP + DEP + sign provenance on lanczos / lanczos_fact / init_lanczos / lanczos_eigs: iteration cap min(max_iters, n) with a counter from 1 tested by <=, "
                        "T built with one array in both off-diagonal slots whose entries are norms, start vector normalised into column 1 without writing the caller's array, "
                        "Gram-Schmidt coefficients conjugate the basis they are later multiplied with, Ritz values ascending with paired vector columns, consistent trimming.")
